@@ -131,8 +131,9 @@ def run_fn(task):
     t0 = time.time()
     try:
         out = fn(**task.get('kwargs', {}))
-    except (AttributeError, KeyError, NotImplementedError) as exc:
-        if task['kind'] != 'lemma':
+    except Exception as exc:  # pylint: disable=broad-exception-caught
+        structural = type(exc).__name__ == 'Unsupported' or (isinstance(exc, AttributeError) and "module 'bare_script" in str(exc))
+        if task['kind'] != 'lemma' or not structural:
             raise
         # a lemma is generated from named objects of the live tree; when they are gone the lemma is skipped (structure changed),
         # the public-API harnesses of the same property still run
